@@ -1,1 +1,2 @@
 pub mod singleflight;
+pub mod chunkcache;
